@@ -214,6 +214,9 @@ def replay(prop, path, work):
         c = os.path.join(work, "TraceObs.cfg")
         write_cfg(c, spec="TraceSpec", constants=dict(OBS_TRACE, Flavor=flavor), postcondition="TraceAccepted")
         val = validate("TraceObs", c, trace, work, nchunks=1)
+    elif layer == "vec":
+        run_harness(["vec-replay", beh, trace])
+        val = vec_validate(trace, work)
     else:
         raise ToolError("cannot replay layer %r" % layer)
     print(open(trace).read())
@@ -225,3 +228,139 @@ def replay(prop, path, work):
         return 1
     print("replay: property %s held on this behaviour" % prop)
     return 0
+
+
+# =========================================================================== vec layer (crate eyeball-im)
+VEC_TRACE = dict(MaxDecs=4, SubIds={1, 2, 3, 4}, Caps={1}, MaxLen=1000, LagThenClosedLosesState=False)
+VEC_INVS = ["TypeOK", "PollAccepted", "AtPendingEqual", "NoEmptyMessage"]
+VEC_PROPS = ["EndOnlyWhenDead", "EndOnFinalState", "TxnInvisible", "AbandonIsNoop"]
+MUT_OPS = {"PushBack", "PushFront", "PopBack", "PopFront", "Insert", "Set", "Remove", "Truncate", "Clear", "Append",
+           "EntrySet", "EntryRemove", "Entries"}
+
+
+def vec_nontrivial(prop):
+    def polls_after_mut(b):
+        ops = [o["op"] for o in b]
+        if "Subscribe" not in ops:
+            return False
+        i = ops.index("Subscribe")
+        m = [j for j in range(i + 1, len(ops)) if ops[j] in MUT_OPS or ops[j] == "TxnCommit"]
+        return bool(m) and "Poll" in ops[m[0] + 1:]
+
+    def c06(b):
+        # more messages than the capacity between subscribe and a poll
+        cap = b[0]["i"]
+        cnt = {}
+        for o in b[1:]:
+            if o["op"] == "Subscribe":
+                cnt[o["s"]] = 0
+            elif (o["op"] in MUT_OPS and o["t"] == "v") or o["op"] == "TxnCommit":
+                for s in cnt:
+                    cnt[s] += 1
+            elif o["op"] == "Poll" and o["s"] in cnt:
+                if cnt[o["s"]] > cap:
+                    return True
+                cnt[o["s"]] = 0
+        return False
+
+    def c07(b):
+        ops = [o["op"] for o in b]
+        return "TxnBegin" in ops and any(o["t"] == "t" and o["op"] in MUT_OPS for o in b)
+
+    def c08(b):
+        ops = [o["op"] for o in b]
+        return "DropVector" in ops and "Poll" in ops[ops.index("DropVector"):] and "Subscribe" in ops
+
+    def c17(b):
+        return sum(1 for o in b if o["op"] in MUT_OPS) >= 2
+    return dict(C05=polls_after_mut, C06=c06, C07=c07, C08=c08, C17=c17, C14=polls_after_mut)[prop]
+
+
+VEC_RULES = dict(
+    C05="behaviours generated by TLC from Vec.tla (transition cover, random walks) with a capacity that excludes lag; "
+        "non-trivial = a subscriber is polled after at least one mutation that followed its subscription",
+    C06="capacities 1,2,3 (and 5,16 in walks); non-trivial = some subscriber had more messages pending than the capacity when polled",
+    C07="transaction-focused generation (Vec!NextTxn); non-trivial = a transaction containing at least one mutator call",
+    C08="stream-focused generation with DropVector; non-trivial = a subscriber is polled after the vector was dropped",
+    C17="mutator-focused generation incl. out-of-range indices and entry traversals; non-trivial = at least two mutator calls",
+)
+
+
+def vec_sig(v):
+    d = v["detail"]
+    if d.get("op") == "Poll":
+        lagp = len(d.get("msgs", [])) > d.get("cap", 0)
+        return dict(layer="vec", clause=v["clause"], op="Poll", flav=d.get("flav"), end=d.get("end"),
+                    lag_possible=lagp, alive=d.get("alive"))
+    return dict(layer="vec", clause=v["clause"], op=d.get("op"), t=d.get("t"),
+                expected=(d.get("expected") or {}).get("t"), got=(d.get("got") or {}).get("t"))
+
+
+def vec_validate(trace, work):
+    c = os.path.join(work, "TraceVec.cfg")
+    write_cfg(c, spec="TraceSpec", constants=VEC_TRACE, postcondition="TraceAccepted")
+    return validate("TraceVec", c, trace, work)
+
+
+def vec_pipeline(prop, tier, seed, work, t0):
+    quick = tier == "quick"
+    # ---- 1. design level
+    cfg = os.path.join(work, "MCVec.cfg")
+    write_cfg(cfg, spec="Spec", constants=dict(MaxDecs=2 if quick else 2, SubIds={1, 2}, Caps={1, 2}, MaxLen=2,
+                                               LagThenClosedLosesState=False, MaxOps=5 if quick else 6),
+              view="View", constraints=["Bound"], invariants=VEC_INVS, properties=VEC_PROPS)
+    mc = tlc("MCVec", cfg, work, workers=8, timeout=3000, tag="mc")
+    if not tlc_ok(mc, "MCVec"):
+        log(mc["out"][-5000:])
+        raise ToolError("MCVec: the model violates its invariants (model error)")
+    log("MC: %d distinct states, %d transitions, %.1fs" % (mc["distinct"], mc["generated"], mc["wall"]))
+    # ---- 2. generation
+    beh = os.path.join(work, "beh.ndjson")
+    n = 0
+    base = dict(MaxDecs=2, SubIds={1, 2}, MaxLen=2, LagThenClosedLosesState=False)
+    plans = dict(
+        C05=[("SpecStreams", dict(Caps={16}, Depth=5 if quick else 6)), ("SpecTxn", dict(Caps={16}, Depth=5, SubIds={1}))],
+        C06=[("SpecStreams", dict(Caps={1, 2}, Depth=5 if quick else 6, MaxLen=2)),
+             ("SpecTxn", dict(Caps={1}, Depth=6 if quick else 7, SubIds={1}, MaxLen=1))],
+        C07=[("SpecTxn", dict(Caps={1, 16}, Depth=5 if quick else 6, SubIds={1}))],
+        C08=[("SpecStreams", dict(Caps={1, 2}, Depth=6 if quick else 7, SubIds={1}, MaxLen=2))],
+        C17=[("SpecMut", dict(Caps={16}, Depth=4 if quick else 5, MaxLen=3, SubIds={1}))],
+    )
+    for j, (spec, over) in enumerate(plans[prop]):
+        c = os.path.join(work, "GenEdge%d.cfg" % j)
+        write_cfg(c, spec=spec, constants=dict(base, **over), view="View", constraints=["Bound"], action_constraints=["Edge"])
+        k, _ = gen_behaviours("GenVec", c, work, beh, "edge", tag="edge%d" % j, workers=12, timeout=3000)
+        n += k
+        log("gen edge %s: %d" % (spec, k))
+    simspec = dict(C05="SpecAll", C06="SpecAll", C07="SpecTxn", C08="SpecAll", C17="SpecMut")[prop]
+    simcaps = dict(C05={16, 64}, C06={1, 2, 3, 5}, C07={1, 3, 16}, C08={1, 2, 3, 16}, C17={16})[prop]
+    c = os.path.join(work, "GenSim.cfg")
+    write_cfg(c, spec=simspec, constants=dict(MaxDecs=3, SubIds={1, 2, 3}, Caps=simcaps, MaxLen=6,
+                                              LagThenClosedLosesState=False, Depth=50),
+              constraints=["BoundTree"], invariants=["PrintAtDepth"])
+    k, _ = gen_behaviours("GenVec", c, work, beh, "sim", num=400 if quick else 20000, depth=51, seed=seed, tag="sim",
+                          timeout=3000)
+    n += k
+    log("gen sim: %d" % k)
+    # ---- 3. real code
+    trace = os.path.join(work, "trace.ndjson")
+    hrc = run_harness(["vec-replay", beh, trace])
+    # ---- 4. judge
+    val = vec_validate(trace, work)
+    st = val["stats"] + [0] * 10
+    extra = dict(trace_events=st[0], calls_followed=st[2],
+                 exercised=dict(polls_with_items=st[3], lag_resets_seen=st[4], commits_with_changes=st[5],
+                                stream_ends_seen=st[6], owed_wakeups_checked=st[7], expected_panics=st[9]),
+                 drift_polls_differing_from_model_prediction=st[8], harness_hang=(hrc == 3),
+                 mc_config="Vec.tla, 2 subscribers, capacities {1,2}, vectors <= 2, <= %d operations" % (4 if quick else 5),
+                 exhaustive=False)
+    return finish(prop, tier, seed, t0, mc, n, beh, val, VEC_RULES[prop], vec_nontrivial(prop), extra,
+                  ["the harness executes each call faithfully and logs results, contents and delivered diffs verbatim",
+                   "TLC's evaluation of Vec.tla / TraceVec.tla; bounded constants for the exhaustive part",
+                   "tokio's broadcast channel behaves as read from its source (buffer rounded up to a power of two); "
+                   "this only affects the DRIFT counter, never the verdict"],
+                  "vec", vec_sig)
+
+
+for _p in ("C05", "C06", "C07", "C08", "C17"):
+    CHECKS[_p] = vec_pipeline
